@@ -22,3 +22,11 @@ theorem coordType_ok : GBExtracted.coordTypeSpellings =
   decide +kernel
 
 end GB.Obl
+
+namespace GB.Obl
+/-- the angular-momentum letter tables of both parsers are the model's -/
+theorem dictAngmom_ok :
+    GBExtracted.dictAngmomNwchem = GB.Parse.dictAngmom.map (fun p => (String.singleton p.1, p.2)) ∧
+    GBExtracted.dictAngmomGbs = GB.Parse.dictAngmom.map (fun p => (String.singleton p.1, p.2)) := by
+  decide +kernel
+end GB.Obl
